@@ -22,7 +22,7 @@ ANCHORS = ['pycaption.dfxp.base:DFXPReader._convert_style', 'pycaption.dfxp.base
            'pycaption.webvtt:WebVTTWriter._calculate_resulting_style']
 REQUIRE = {'chain_dfxp': 50, 'chain_sami': 50, 'chain_dfxp>sami': 30, 'chain_sami>dfxp': 30, 'chain_webvtt': 50,
            'reader_captions_balance_checked': 200, 'chars_compared': 5000, 'spans_across_break': 50,
-           'adjacent_spans': 50, 'empty_spans': 20, 'italic_chars': 500, 'bold_chars': 200, 'underline_chars': 200, 'positioned_captions': 30}
+           'adjacent_spans': 50, 'empty_spans': 20, 'italic_chars': 500, 'bold_chars': 200, 'underline_chars': 200, 'positioned_captions': 30, 'suite_captions_balance_checked': 300}
 
 KINDS = [{'italics': True}, {'italics': True}, {'bold': True}, {'underline': True}, {'italics': True, 'bold': True}]
 
@@ -72,6 +72,8 @@ def gen_caption(rng, tag):
 
 def cases(ctx):
     rng = ctx.rng('c11')
+    if ctx.shard == 0:
+        yield {'kind': 'suite'}
     chains = ['dfxp', 'sami', 'dfxp>sami', 'sami>dfxp', 'webvtt']
     for i in range(ctx.budget(8000, 250000)):
         if i % 6 == 5 and rng.random() < 0.5:
@@ -108,7 +110,7 @@ def cases(ctx):
 
 
 def nontrivial(case):
-    return case['kind'] == 'reader' or bool(case['features'])
+    return case['kind'] in ('reader', 'suite') or bool(case['features'])
 
 
 def flags_of_nodes(nodes_dump):
@@ -153,6 +155,12 @@ def _planes(chain_step):
 def check(case, ctx):
     import pycaption
     fails = []
+    if case['kind'] == 'suite':
+        from vf import suite
+        data = suite.run_suite()
+        ctx.count('suite_captions_balance_checked', data['counts'].get('read_caption_observed', 0))
+        return [{'what': v['violation'], 'test': v.get('test'), 'text': v.get('text')} for v in data['violations']
+                if v.get('property') == 'C11'][:3]
     if case['kind'] == 'reader':
         name = 'SCCReader' if case['format'] == 'scc' else docs.READERS[case['format']]
         try:
